@@ -1,5 +1,6 @@
 """C06 — Object is an insertion-ordered multimap whose key index never goes stale (structural,
 necessary clauses; equivalence with the list model over all histories is not decided)."""
+import itertools
 import re
 
 from .. import shape, static
@@ -39,6 +40,7 @@ def run(ctx, res):
     sorted_rule(ctx, res)
     sort_order_rule(ctx, res)
     drop_rule(ctx, res)
+    model_rule(ctx, res)
     res.notes.append("not decided: equivalence with the ordered-list model over all operation histories; hash/equality coherence of Q, Key and hashbrown (dependencies)")
 
 
@@ -449,3 +451,209 @@ def drop_rule(ctx, res):
             ra = any(P.inst[i]["path"] == "json_syntax::Object::remove_at" for i in r)
             res.ob(ra and not direct, rule, "%s/%s/removes-through" % (rule, it_name), "%s::next must remove entries through remove_at only (reaches remove_at: %s, other entry-list mutations: %r)" % (it_name, ra, direct),
                    sample={"iterator": it_name, "removes_through": "Object::remove_at"})
+
+
+# ---- C06.model: every operation on every small object with an exact index -----------------------------------------------
+def model_rule(ctx, res, only_index=False, rule="C06.model"):
+    """(only_index=True: report only operations that leave a stale index — what C15 depends on.)
+    Induction step of "the object behaves like a plain ordered list and its key index never goes stale": from every
+    abstract object with up to L entries (two keys, two values) whose index is exact, each mutating operation —
+    interpreted from its MIR, the hash table replaced by its specification at the IndexMap API — yields the entries and
+    the result the list model prescribes and an exact index again; every key-based query answers what a linear scan
+    would.  Removal iterators are consumed 0, 1 and all times and then dropped."""
+    from .. import objmodel
+    from ..objmodel import KEYS, exact_index
+    P = ctx.P
+    res.rules_run.append(rule + " (push / push_front / remove_at / insert / insert_front / remove / remove_unique / sort / from_vec / extend and the key queries, interpreted on every object of up to %d entries over two keys and two values with an exact index: list semantics, results, index exact afterwards)" % (4 if ctx.tier == "thorough" else 3))
+    L = 4 if ctx.tier == "thorough" else 3
+    objs = objmodel.list_objects(L)
+    # in the quick tier add the single-key objects of length 3 (buckets with two `other` positions) and a mixed one
+    if L == 2:  # (kept for smaller bounds)
+        objs += [tuple(("k", v) for v in vs) for vs in itertools.product((1, 2), repeat=3)] + [(("k", 1), ("m", 1), ("k", 2)), (("m", 2), ("k", 2), ("k", 1))]
+    bad = {}
+    n_cases = [0]
+
+    def fail(op, what, detail):
+        if only_index and what != "stale-index":
+            return
+        key = "%s/%s/%s" % (rule, op, what)
+        if key not in bad:
+            bad[key] = detail
+
+    def world():
+        return objmodel.World(P)
+
+    def root(name):
+        if name not in P.roots:
+            raise Undecided("harness root %s missing" % name)
+        return P.inst[P.roots[name]]
+
+    def one(outs, op):
+        if len(outs) != 1 or not outs[0].outcome or outs[0].outcome[0] != "return":
+            raise Undecided("%s: %d paths / outcomes %s" % (op, len(outs), [o.outcome[0] if o.outcome else None for o in outs][:3]))
+        return outs[0]
+
+    def check_state(W, o, cid, op, before, want_entries, args):
+        ents, idx = W.read_object(o, cid)
+        n_cases[0] += 1
+        if want_entries is not None and ents != list(want_entries):
+            fail(op, "entries", "%s on %s%s leaves %s, the list model gives %s" % (op, show(before), args, show(ents), show(want_entries)))
+        if idx != exact_index(ents):
+            fail(op, "stale-index", "%s on %s%s leaves the entries %s with the index %r (exact index: %r)" % (op, show(before), args, show(ents), idx, exact_index(ents)))
+        return ents
+
+    def show(l):
+        return "{" + ", ".join("%s:%s" % e for e in l) + "}"
+
+    def opt_entry(W, o, v):
+        if not isinstance(v, Agg):
+            raise Undecided("expected an Option<Entry>, got %r" % (v,))
+        return None if v.variant == 0 else W.entry_kv(o, v.fields[0])
+
+    def drive(W, o, itval, next_root, drop_root, consume):
+        cell = o.new_obj(itval)
+        iref = Ref(("H", cell.id), ())
+        yielded = []
+        for _ in range(consume):
+            o = one(W.call(o, root(next_root), [iref]), next_root)
+            yielded.append(opt_entry(W, o, o.outcome[1]))
+        o = one(W.call(o, root(drop_root), [o.heap[cell.id]]), drop_root)
+        return o, yielded
+
+    try:
+        for before in objs:
+            before = list(before)
+            keys = [k for k, _ in before]
+            n = len(before)
+            # -- push / push_front
+            for k in KEYS:
+                for op, want in (("push", before + [(k, 9)]), ("push_front", [(k, 9)] + before)):
+                    W = world()
+                    oref, cid = W.mk_object(W.sh.st, before)
+                    o = one(W.call(W.sh.st, root("root_object_" + op), [oref, W.key(k), W.val(9)]), op)
+                    check_state(W, o, cid, op, before, want, "(%s)" % k)
+                    fresh = o.outcome[1]
+                    if fresh != Conc(int(k not in keys)):
+                        fail(op, "result", "%s(%s) on %s returns %r, the key was %s" % (op, k, show(before), fresh, "absent" if k not in keys else "present"))
+            # -- remove_at
+            for i in range(n + 2):
+                W = world()
+                oref, cid = W.mk_object(W.sh.st, before)
+                o = one(W.call(W.sh.st, root("root_object_remove_at"), [oref, Conc(i)]), "remove_at")
+                want = before[:i] + before[i + 1:] if i < n else before
+                check_state(W, o, cid, "remove_at", before, want, "(%d)" % i)
+                got = opt_entry(W, o, o.outcome[1])
+                if got != (before[i] if i < n else None):
+                    fail("remove_at", "result", "remove_at(%d) on %s returns %r" % (i, show(before), got))
+            # -- insert / insert_front / remove, consumed 0, 1, all times, then dropped
+            for k in KEYS:
+                dups = [e for e in before if e[0] == k]
+                for consume in sorted({0, 1, len(dups) + 1}):
+                    # insert
+                    W = world()
+                    oref, cid = W.mk_object(W.sh.st, before)
+                    o = one(W.call(W.sh.st, root("root_object_insert"), [oref, W.key(k), W.val(9)]), "insert")
+                    rv = o.outcome[1]
+                    if k in keys:
+                        i0 = keys.index(k)
+                        want = [(k, 9) if j == i0 else e for j, e in enumerate(before) if j == i0 or e[0] != k]
+                        removed = [before[i0]] + [e for j, e in enumerate(before) if j != i0 and e[0] == k]
+                        if not (isinstance(rv, Agg) and rv.variant == 1):
+                            fail("insert", "result", "insert(%s) on %s with the key present returns None" % (k, show(before)))
+                        else:
+                            o, yielded = drive(W, o, rv.fields[0], "root_object_removed_by_insertion_next", "root_object_removed_by_insertion_drop", consume)
+                            check_state(W, o, cid, "insert", before, want, "(%s), %d consumed" % (k, consume))
+                            if yielded != (removed + [None] * consume)[:consume]:
+                                fail("insert", "removed", "insert(%s) on %s yields %r, expected %r" % (k, show(before), yielded, (removed + [None] * consume)[:consume]))
+                    else:
+                        check_state(W, o, cid, "insert", before, before + [(k, 9)], "(%s)" % k)
+                        if not (isinstance(rv, Agg) and rv.variant == 0):
+                            fail("insert", "result", "insert(%s) on %s with a fresh key does not return None" % (k, show(before)))
+                    # insert_front
+                    W = world()
+                    oref, cid = W.mk_object(W.sh.st, before)
+                    o = one(W.call(W.sh.st, root("root_object_insert_front"), [oref, W.key(k), W.val(9)]), "insert_front")
+                    o, yielded = drive(W, o, o.outcome[1], "root_object_removed_by_insert_front_next", "root_object_removed_by_insert_front_drop", consume)
+                    check_state(W, o, cid, "insert_front", before, [(k, 9)] + [e for e in before if e[0] != k], "(%s), %d consumed" % (k, consume))
+                    if yielded != (dups + [None] * consume)[:consume]:
+                        fail("insert_front", "removed", "insert_front(%s) on %s yields %r, expected %r" % (k, show(before), yielded, (dups + [None] * consume)[:consume]))
+                    # remove
+                    W = world()
+                    oref, cid = W.mk_object(W.sh.st, before)
+                    o = one(W.call(W.sh.st, root("root_object_remove"), [oref, W.key(k)]), "remove")
+                    o, yielded = drive(W, o, o.outcome[1], "root_object_removed_entries_next", "root_object_removed_entries_drop", consume)
+                    check_state(W, o, cid, "remove", before, [e for e in before if e[0] != k], "(%s), %d consumed" % (k, consume))
+                    if yielded != (dups + [None] * consume)[:consume]:
+                        fail("remove", "removed", "remove(%s) on %s yields %r, expected %r" % (k, show(before), yielded, (dups + [None] * consume)[:consume]))
+                # remove_unique
+                W = world()
+                oref, cid = W.mk_object(W.sh.st, before)
+                o = one(W.call(W.sh.st, root("root_object_remove_unique"), [oref, W.key(k)]), "remove_unique")
+                rv = o.outcome[1]
+                if len(dups) >= 2:
+                    # Err(Duplicate(first, second)); what is left of the object is not specified by the documentation
+                    # (today every entry with the key is gone): only the index must stay exact
+                    check_state(W, o, cid, "remove_unique", before, None, "(%s)" % k)
+                    ok = isinstance(rv, Agg) and rv.variant == 1 and isinstance(rv.fields[0], Agg) and [W.entry_kv(o, x) for x in rv.fields[0].fields] == dups[:2]
+                    if not ok:
+                        fail("remove_unique", "result", "remove_unique(%s) on %s with duplicates must return Err(Duplicate(first, second)); got %r" % (k, show(before), rv))
+                else:
+                    check_state(W, o, cid, "remove_unique", before, [e for e in before if e[0] != k], "(%s)" % k)
+                    ok = isinstance(rv, Agg) and rv.variant == 0 and opt_entry(W, o, rv.fields[0]) == (dups[0] if dups else None)
+                    if not ok:
+                        fail("remove_unique", "result", "remove_unique(%s) on %s returns %r" % (k, show(before), rv))
+            # -- sort
+            W = world()
+            oref, cid = W.mk_object(W.sh.st, before)
+            o = one(W.call(W.sh.st, root("root_object_sort"), [oref]), "sort")
+            check_state(W, o, cid, "sort", before, sorted(before), "")
+            # -- bulk construction: from_vec keeps the entries and indexes every position
+            W = world()
+            st = W.sh.st
+            vec = st.new_obj(objmodel.AVec(tuple(W.entry(k, v) for k, v in before), "entries"))
+            o = one(W.call(st, root("root_object_from_vec"), [vec]), "from_vec")
+            cell = o.new_obj(o.outcome[1])
+            check_state(W, o, cell.id, "from_vec", before, before, "")
+            # -- queries
+            for k in KEYS + ("z",):
+                pos = [i for i, e in enumerate(before) if e[0] == k]
+                W = world()
+                oref, cid = W.mk_object(W.sh.st, before)
+                for qroot, want in (("root_object_index_of", pos[0] if pos else None), ("root_object_redundant_index_of", pos[1] if len(pos) > 1 else None)):
+                    o = one(W.call(W.sh.st, root(qroot), [oref, W.key(k)]), qroot)
+                    rv = o.outcome[1]
+                    got = None if (isinstance(rv, Agg) and rv.variant == 0) else (rv.fields[0].v if isinstance(rv, Agg) and isinstance(rv.fields[0], Conc) else repr(rv))
+                    n_cases[0] += 1
+                    if got != want:
+                        fail(qroot[12:], "result", "%s(%s) on %s returns %r, a linear scan gives %r" % (qroot[12:], k, show(before), got, want))
+                o = one(W.call(W.sh.st, root("root_object_contains_key"), [oref, W.key(k)]), "contains_key")
+                n_cases[0] += 1
+                if o.outcome[1] != Conc(int(bool(pos))):
+                    fail("contains_key", "result", "contains_key(%s) on %s returns %r" % (k, show(before), o.outcome[1]))
+                # get_entries_with_index: all positions, in order
+                o = one(W.call(W.sh.st, root("root_object_get_entries_with_index"), [oref, W.key(k)]), "get_entries_with_index")
+                cell = o.new_obj(o.outcome[1])
+                got = []
+                for _ in range(len(pos) + 1):
+                    o = one(W.call(o, root("root_object_entries_with_index_next"), [Ref(("H", cell.id), ())]), "entries_with_index_next")
+                    rv = o.outcome[1]
+                    if isinstance(rv, Agg) and rv.variant == 1:
+                        t = rv.fields[0]
+                        got.append((t.fields[0].v if isinstance(t.fields[0], Conc) else repr(t.fields[0]), W.entry_kv(o, t.fields[1])))
+                    else:
+                        got.append(None)
+                n_cases[0] += 1
+                want = [(i, before[i]) for i in pos] + [None]
+                if got != want:
+                    fail("get_entries_with_index", "result", "get_entries_with_index(%s) on %s yields %r, a linear scan gives %r" % (k, show(before), got, want))
+    except Undecided as e:
+        res.violation(rule, rule + "/undecided", "undecided while interpreting an Object operation on a small object: %s" % e)
+        return
+    res.count(rule + " objects", len(objs))
+    res.count(rule + " cases", n_cases[0])
+    res.floor(rule, rule + " cases", 3000)
+    for key, detail in sorted(bad.items()):
+        res.violation(rule, key, detail)
+    if not bad:
+        res.ob(True, rule, rule + "/all", "", sample={"objects": len(objs), "cases": n_cases[0], "verdict": "list semantics, results and exact index on all of them"})
+    res.infos.append("remove_unique on a duplicated key returns Err(Duplicate(first, second)) and, because the removal iterator's Drop finishes the removal, deletes every entry with that key; the documentation does not say what is left, so only the index is checked in that case")
